@@ -335,6 +335,8 @@ pub struct Inst {
     pub hin: Option<mpsc::UnboundedReceiver<HandlerIn>>,
     pub hout: mpsc::Sender<HandlerOut>,
     pub events: mpsc::Receiver<Event>,
+    /// the application does not read its event stream for a while (the bounded stream overflows)
+    pub events_paused: bool,
     pub local_id: [u8; 32],
     pub local_seed: u64,
     pub mode: IpMode,
@@ -414,6 +416,7 @@ impl Inst {
             hin: Some(hin),
             hout,
             events,
+            events_paused: false,
             local_id,
             local_seed: seed,
             mode,
@@ -550,8 +553,10 @@ impl Inst {
                 }
             }
         }
-        while let Ok(e) = self.events.try_recv() {
-            out.push(Obs::Ev(e));
+        if !self.events_paused {
+            while let Ok(e) = self.events.try_recv() {
+                out.push(Obs::Ev(e));
+            }
         }
         out
     }
@@ -1344,6 +1349,26 @@ impl Runner for ServiceRunner {
                 out.push("ok".into());
             }
             _ if !self.insts.contains_key(&x) && t[0] != "sbans" => noop(out),
+            // the application stops / resumes reading its event stream; what piled up is discarded
+            ["sevpause", _] => {
+                self.insts.get_mut(&x).unwrap().events_paused = true;
+                stats.bump("s.events-paused");
+                out.push(format!("!OP sevpause {}", x));
+                out.push("ok".into());
+            }
+            ["sevresume", _] => {
+                let inst = self.insts.get_mut(&x).unwrap();
+                inst.events_paused = false;
+                let mut n = 0;
+                while inst.events.try_recv().is_ok() {
+                    n += 1;
+                }
+                if n >= 30 {
+                    stats.bump("s.event-stream-overflowed");
+                }
+                out.push(format!("!OP sevresume {}", x));
+                out.push("ok".into());
+            }
             ["sadd", _, rec] => {
                 let Some(enr) = self.rec(rec) else { return noop(out) };
                 let f = self.insts[&x].filter;
@@ -1587,7 +1612,7 @@ impl Runner for ServiceRunner {
                             if local_after.seq() <= local_before.seq() {
                                 out.push("!MON C17 seq-not-increased".into());
                             }
-                            if so.socket_updated.is_empty() {
+                            if so.socket_updated.is_empty() && !self.insts[&x].events_paused {
                                 out.push("!MON C17 no-socket-updated-event".into());
                             }
                         } else if !so.socket_updated.is_empty() {
@@ -2278,6 +2303,16 @@ fn gen_c17(rng: &mut Rng, ops: &mut Vec<String>, stats: &mut Stats) {
                 ops.push(format!("sest A k{}:1:{}:0 = i", s, sh));
             }
         }
+    }
+    if rng.chance(1, 5) {
+        // the application does not read its events for a while: the bounded stream overflows
+        // (two events per new session); it then catches up, and later changes must be announced again
+        stats.bump("gen.c17.event-stream-overflow");
+        ops.push("sevpause A".into());
+        for i in 0..rng.range(18, 24) {
+            ops.push(format!("sest A k{}:1:{}:0 = i", 700 + i, contact_shape(mode, rng)));
+        }
+        ops.push("sevresume A".into());
     }
     let m = rng.range(6, 30);
     let lead4 = *rng.pick(&c4);
